@@ -21,6 +21,9 @@ const (
 	TParam // type parameter (constraint ~uint64) of the generic function enclosing the flow
 	TAnon  // unnamed struct type, spelled out wherever it is used
 	TBytes // one type, two spellings: producers say []byte, consumers say []uint8
+	// TFuncLit is the unnamed type func() uint64: a different type from every
+	// TFunc type of the flow, yet assignable to and from each of them.
+	TFuncLit
 )
 
 // BasicNames are the predeclared types a flow value can have (TypeSpec.X).
